@@ -185,7 +185,15 @@ OnExit(S, m, e) ==
       \* C13: resubmit-jobs on an incomplete submission refuses and leaves jobs, counters, submitter field and lock alone
       m6 == Check(m5b, "RefuseLeavesUnchanged", p \in DOMAIN m.refused /\ ~m.refused[p][2],
                   Keep(m) = m.refused[p][1] /\ ~e.clock /\ e.code # 0 /\ e.exc \in {"", "SystemExit"})
-  IN m6
+      \* C08: "reported as newly completed to a submitter round" -- the round acts on the report: when a submitter-type
+      \* command ends normally and the role is free (nobody is in the middle of a round), every row a collection has
+      \* returned so far is recorded as completed in the persisted status (a row that a round collected and then dropped on
+      \* the way to its status update was reported to nobody: the job stays "submitted" for ever)
+      m7 == Check(m6, "ReportedRowsRecorded",
+                  e.k \in {"submit-jobs", "try-submit-jobs", "resubmit-jobs"} /\ e.exc = "" /\ FaultFree(m) /\ ~m.sqlie
+                    /\ m.hasSt /\ m.st.sub = "" /\ S.mode = "hpc",
+                  \A r \in m.reported : r[1] \in DOMAIN m.st.st => m.st.st[r[1]] = 2)
+  IN m7
 
 OnCfgBatch(S, m, e) ==
   LET b == e.b
@@ -458,8 +466,12 @@ OnCop(S, m, e) ==
       m2 == Check(m1, "PromotionRefusedWhileHeld", e.op \in {"loadp"} /\ e.before # "" /\ e.exc = "", ~e.ok /\ ~e.changed)
       m3 == Check(m2, "PromotionGrantedOnlyWhenFree", e.ok, e.before = "")
       m4 == Check(m3, "OneSubmitter", e.ok, m.holder \in {0, e.pid})
-  IN [m4 EXCEPT !.holder = IF e.ok THEN e.pid
-                           ELSE IF e.op = "demote" /\ e.exc = "" /\ @ = e.pid THEN 0 ELSE @]
+  IN IF e.op = "recreate"
+       \* the output directory was removed and the submission created anew (submit-jobs --force): its creator holds the
+       \* role of the new submission; the old one, and whoever held its role, is history
+       THEN [m EXCEPT !.holder = e.pid]
+       ELSE [m4 EXCEPT !.holder = IF e.ok THEN e.pid
+                                  ELSE IF e.op = "demote" /\ e.exc = "" /\ @ = e.pid THEN 0 ELSE @]
 
 \* C16: lifecycle commands
 OnHook(S, m, e) ==
@@ -572,7 +584,7 @@ ClausesOf(c) ==
     [] c = "C07" -> {"BatchNonEmpty", "BatchJobsKnown", "OneGroup", "BatchSizeOrTime", "BlockedOnlyWithAllBlockers",
                      "HandoverCoversUnfinished", "GroupOptions", "DryRunNoSbatch", "DryRunNoLaunch", "DryRunSame"}
     [] c = "C08" -> {"ProcessedParses", "RowsIntact", "RowsNotDuplicated", "RowsNeverLost", "EachRowReportedOnce",
-                     "ReportedRowsReal", "AllRowsReported", "CollectedRowsReported"}
+                     "ReportedRowsReal", "AllRowsReported", "CollectedRowsReported", "ReportedRowsRecorded"}
     [] c = "C09" -> {"StatusJobsMatchConfig", "CountersOrdered", "CompletedMatchesDone", "SubmittedMatchesStates", "DoneHasResult",
                      "VersionFilesAgree", "SubmittedHasNoBlockers", "VersionsNeverDecrease", "VersionsIncreaseWithChange",
                      "CountersMonotone", "StateAdvances", "BlockersShrink", "CompleteSticky", "BatchIndexMonotone"}
